@@ -47,3 +47,23 @@ claim("C16",
       "value-identity checks on CreateFile/OpenFile (same SSA value reserved, returned and handed to the writer) + the C15 path rules",
       "Structural conformance to the store's specification: the pointer returned is the reserved .dat path, the writer publishes to it from the exclusive .tmp sibling, OpenFile opens exactly the pointer, redraw only on IsExist, plus the shared publish-protocol rules (exclusive creates, rename after sync+close, scan limited to parsed .dat, tombstone/abort remove all artifacts). Call-sequence histories are not explored.",
       TB)
+
+claim("C11",
+      "per-iteration must-facts on loop back edges (SSA dataflow), loop-exit classification, value-identity/provenance checks on the copy and merge paths",
+      "Content preservation of merging through structural necessary conditions: every scanned row is indexed, length-prefixed from its own length, written and counted before the scan loop's back edge, the loop's other exits are error returns; every group member is loaded and scanned to its end, every merge group is copied or merged, every block and partition is collected/processed; the merged block keeps the grouping partition and the running union of minmax ranges (Min/Max unswapped, no member skipped); copied blocks are verified, written from the very bytes read at their recorded extent, re-indexed row by row, and keep all metadata but their location. Multiset equality itself is not decided.",
+      TB)
+
+claim("C12",
+      "normalised limit-guard edges (within/beyond labels) in the SSA dataflow + accumulator provenance through phis",
+      "Guard shape of the layout limits: a block joins a merge group only on the within-edges of both cumulative checks (running total + candidate against MaxRowGroupRows / MaxRowGroupBytes) and the running totals advance by the candidate's own Rows/UncompressedSize; a file joins a group only within MaxFileSize (group size + candidate totalSize, inclusive) and within the per-group and per-operation MaxFilesToMergePerOperation guards; blocks are bucketed by blockMergeKey, which covers partition and the sorted, length-prefixed minmax key set. The inequalities' arithmetic over runtime values is not decided.",
+      TB)
+
+claim("C17",
+      "go/types struct comparison, composite-literal provenance, flag/compression case-table extraction (E5), SSA ordering dataflow and value-identity checks on the assembly paths",
+      "Self-description of written files: fileMetadataJSON mirrors FileMetadata and both footer directions copy every field (FileFilterSectionSize = length of the section written); presence bits and compression cases agree between writer and reader; assembly order body → finish (once) → footer → Close with nothing written after finish and the committed metadata being the footer's object; per block one value serves as bytes written, RowDataSize, offset increment and CRC input, RowDataOffset is taken before the increment, the region offset after the last block, counts from the same buffer. Byte-level round trips are left to the existing tests.",
+      TB)
+
+claim("C18",
+      "typestate (seal/mutate) dataflow with interprocedural mutates-parameter summaries, per-iteration must-facts, value-identity checks of ingest wiring",
+      "Index coverage: entry sets are never mutated after being sealed; every block appended to a file had its entries merged into the file-level set first (copied blocks: every row re-indexed) and file filters are built after the last block; block filters come from the set that indexed the block's rows; the indexing callback records a field entry per emission and token + field:token per token on both tokenizer paths, and the sized filter adds every entry; rows are grouped under PartitionFunc(row), buffers registered under their own partition, and (min,max) of row[index] feed the row's own buffer unswapped. The walker's enumeration itself is value-level and not decided.",
+      TB)
